@@ -192,6 +192,10 @@ class Gen:
         for _ in range(r.choice([0, 1, 1, 2])):
             c = cond(r, lower) if r.random() < 0.5 else None
             ch["defaults"].append([r.choice(members), c])
+        if "untyped_member" in self.feats and k >= 2 and r.random() < 0.3:
+            first = next((m for m in walk(ch["items"]) if m["k"] == "config"), None)
+            if first is not None and first["prompt"] is not None:
+                first["untyped"] = True
         return ch, k
 
     def block(self, budget, depth):
@@ -419,7 +423,10 @@ def render(prog):
             if k == "config":
                 out.append(pad + ("menuconfig " if it.get("menuconfig") else "config ") + it["name"])
                 p = pad + "    "
-                if it["prompt"] is not None:
+                if it["prompt"] is not None and it.get("untyped"):
+                    # no type of its own: a member takes the type of its choice, which takes it from its first typed member
+                    out.append(p + 'prompt "%s"%s' % (it["prompt"], _if(it["prompt_cond"])))
+                elif it["prompt"] is not None:
                     out.append(p + '%s "%s"%s' % (it["type"], it["prompt"], _if(it["prompt_cond"])))
                 else:
                     out.append(p + it["type"])
@@ -703,6 +710,8 @@ def v2_ok(prog):
     for it in walk(prog["items"]):
         if it["k"] == "config" and any(c for _, c in it["implies"]):
             return False
+        if it["k"] == "config" and it.get("untyped"):
+            return False  # parser v2 refuses a config without a type
     return True
 
 
